@@ -139,6 +139,9 @@ void h_dtor(void) {
 /* detach with leftovers, then the record is re-used by a newly attached thread: nothing retired may get lost */
 void h_detach_reuse(void) {
     size_t n0; unsigned g; int help, reuse; __CPROVER_assume(n0 <= MAXRETIRE && g >= 1 && g <= VX_WG_MAX);
+#ifdef VX_NO_HELP_SCAN
+    __CPROVER_assume(!help);          /* quick tier: detach without the help_scan pass */
+#endif
     pick(1, 0);
     w_dhp_detach_reuse(n0, g, help, reuse);
     __CPROVER_assert(vx_T_disposed + vx_kept_T == vx_T_retired, "C03.detach_conserves: after detach (and after the record is re-used by a new thread) a retired object was disposed once or is still in the record's retired storage once");
